@@ -29,8 +29,8 @@ func (store *Store) buildAccountQuery(q PITFilterWithVolumes, query *bun.SelectQ
 		query = query.
 			Column("accounts.address").
 			ColumnExpr("accounts_metadata.metadata").
-			Join("left join accounts_metadata on accounts_metadata.accounts_seq = accounts.seq and accounts_metadata.date < ?", q.PIT).
-			Order("revision desc")
+			// one row per account: its newest metadata revision older than the point in time
+			Join("left join lateral (select metadata from accounts_metadata where accounts_metadata.accounts_seq = accounts.seq and accounts_metadata.date < ? order by revision desc limit 1) as accounts_metadata on true", q.PIT)
 	} else {
 		query = query.Column("metadata")
 	}
